@@ -71,18 +71,6 @@ Proof.
   split; [reflexivity|]. vm_compute. discriminate.
 Qed.
 
-Section WithNet.
-Variable nf : netfns.
-
-(* at every reinit *)
-Theorem reinit_user_wins e c c' : reinit nf e c = Ok c' -> guarded_same c c'.
-Proof.
-  unfold reinit, init_by_sysconfig.
-  destruct (read_sysconfig nf (c_ifs c) e) as [s|st|k]; try discriminate.
-  - intros H; inversion H. apply sysconfig_apply_user_wins.
-  - destruct (st =? NotModelled); [discriminate|]. intros H; inversion H; subst. apply guarded_same_refl.
-Qed.
-
 (* ------------------------------------------------------------------ option steps *)
 Lemma opt_pos_other m b v d b' : b <> b' -> has (fst (opt_pos m b v d)) b' = has m b'.
 Proof. intros H. unfold opt_pos. destruct (has m b); [|reflexivity]. destruct (v <=? 0); [apply has_clrb_neq; exact H|reflexivity]. Qed.
@@ -111,6 +99,18 @@ Ltac mask_chain :=
   repeat first [ rewrite opt_servers_other by bits_neq | rewrite opt_qcache_other by bits_neq
                | rewrite opt_pos_other by bits_neq | rewrite opt_lookups_other by bits_neq
                | rewrite opt_ndots_other by bits_neq | rewrite opt_timeout_other by bits_neq ].
+
+Section WithNet.
+Variable nf : netfns.
+
+(* at every reinit *)
+Theorem reinit_user_wins e c c' : reinit nf e c = Ok c' -> guarded_same c c'.
+Proof.
+  unfold reinit, init_by_sysconfig.
+  destruct (read_sysconfig nf (c_ifs c) e) as [s|st|k]; try discriminate.
+  - intros H; inversion H. apply sysconfig_apply_user_wins.
+  - destruct (st =? NotModelled); [discriminate|]. intros H; inversion H; subst. apply guarded_same_refl.
+Qed.
 
 (* the value the application passed reaches the channel and survives ares_init_options.
    (ARES_OPT_DOMAINS with an empty list is the documented way to ask for the defaults, hence the
@@ -205,3 +205,225 @@ Proof.
 Qed.
 
 End WithNet.
+
+(* ------------------------------------------------------------------ C16_save_init_id *)
+Definition int_pos (z : Z) : Prop := 0 < z < 2 ^ 31.
+
+(* what every channel produced by ares_init_options from int-sized option values satisfies,
+   except for ARES_OPT_TIMEOUT (seconds) above 2147483 (see save_init_timeout_refuted) *)
+Record chan_wf (c : chan) : Prop := {
+  wf_mask : 0 <= c_optmask c < 2 ^ 31;
+  wf_no_timeout_bit : has (c_optmask c) B_TIMEOUT = false;
+  wf_qcache_bit : has (c_optmask c) B_QUERY_CACHE = true;
+  wf_flags : 0 <= c_flags c < 2 ^ 32;
+  wf_timeout : has (c_optmask c) B_TIMEOUTMS = true -> int_pos (c_timeout c);
+  wf_tries : has (c_optmask c) B_TRIES = true -> int_pos (c_tries c);
+  wf_ndots : has (c_optmask c) B_NDOTS = true -> 0 <= c_ndots c < 2 ^ 31;
+  wf_maxtimeout : has (c_optmask c) B_MAXTIMEOUTMS = true -> int_pos (c_maxtimeout c);
+  wf_sndbuf : has (c_optmask c) B_SOCK_SNDBUF = true -> int_pos (c_sndbuf c);
+  wf_rcvbuf : has (c_optmask c) B_SOCK_RCVBUF = true -> int_pos (c_rcvbuf c);
+  wf_ednspsz : has (c_optmask c) B_EDNSPSZ = true -> int_pos (c_ednspsz c);
+  wf_udpmaxq : has (c_optmask c) B_UDP_MAX_QUERIES = true -> int_pos (c_udpmaxq c);
+  wf_lookups : has (c_optmask c) B_LOOKUPS = true -> c_lookups c <> None;
+  wf_norotate : has (c_optmask c) B_NOROTATE = true -> c_rotate c = false;
+  wf_rotate : has (c_optmask c) B_ROTATE = true -> has (c_optmask c) B_NOROTATE = false -> c_rotate c = true }.
+
+(* agreement on every field the option mask covers (servers: see C16_csv_fixpoint / C16_dup) *)
+Record covered_same (c c0 : chan) : Prop := {
+  cs_mask : forall b, 0 <= b < 32 -> b <> B_SERVERS -> has (c_optmask c0) b = has (c_optmask c) b;
+  cs_flags : has (c_optmask c) B_FLAGS = true -> c_flags c0 = c_flags c;
+  cs_timeout : has (c_optmask c) B_TIMEOUTMS = true -> c_timeout c0 = c_timeout c;
+  cs_tries : has (c_optmask c) B_TRIES = true -> c_tries c0 = c_tries c;
+  cs_ndots : has (c_optmask c) B_NDOTS = true -> c_ndots c0 = c_ndots c;
+  cs_maxtimeout : has (c_optmask c) B_MAXTIMEOUTMS = true -> c_maxtimeout c0 = c_maxtimeout c;
+  cs_rotate : has (c_optmask c) B_ROTATE || has (c_optmask c) B_NOROTATE = true -> c_rotate c0 = c_rotate c;
+  cs_udp : has (c_optmask c) B_UDP_PORT = true -> c_udp c0 = c_udp c;
+  cs_tcp : has (c_optmask c) B_TCP_PORT = true -> c_tcp c0 = c_tcp c;
+  cs_sndbuf : has (c_optmask c) B_SOCK_SNDBUF = true -> c_sndbuf c0 = c_sndbuf c;
+  cs_rcvbuf : has (c_optmask c) B_SOCK_RCVBUF = true -> c_rcvbuf c0 = c_rcvbuf c;
+  cs_ednspsz : has (c_optmask c) B_EDNSPSZ = true -> c_ednspsz c0 = c_ednspsz c;
+  cs_udpmaxq : has (c_optmask c) B_UDP_MAX_QUERIES = true -> c_udpmaxq c0 = c_udpmaxq c;
+  cs_qcache : has (c_optmask c) B_QUERY_CACHE = true -> c_qcache c0 = c_qcache c;
+  cs_domains : has (c_optmask c) B_DOMAINS = true -> c_domains c0 = c_domains c;
+  cs_lookups : has (c_optmask c) B_LOOKUPS = true -> c_lookups c0 = c_lookups c;
+  cs_sortlist : has (c_optmask c) B_SORTLIST = true -> c_sortlist c0 = c_sortlist c;
+  cs_sscb : has (c_optmask c) B_SOCK_STATE_CB = true -> c_sscb c0 = c_sscb c;
+  cs_failover : has (c_optmask c) B_SERVER_FAILOVER = true ->
+                c_retry_chance c0 = c_retry_chance c /\ c_retry_delay c0 = c_retry_delay c }.
+
+Lemma i32_small z : 0 <= z < 2 ^ 31 -> i32 z = z.
+Proof. intros H. unfold i32. apply swrap_small; lia. Qed.
+
+Lemma u32_i32 z : 0 <= z < 2 ^ 32 -> u32 (i32 z) = z.
+Proof.
+  intros H. unfold u32, i32, swrap. rewrite (Z.mod_small z) by lia.
+  change (2 ^ (32 - 1)) with 2147483648. change (2 ^ 32) with 4294967296 in *.
+  destruct (Z.ltb_spec z 2147483648).
+  - apply Z.mod_small. lia.
+  - replace (z - 4294967296) with (z + (-1) * 4294967296) by lia. rewrite Z.mod_add by lia. apply Z.mod_small. lia.
+Qed.
+
+Lemma opt_pos_saved m b v g : (has m b = true -> int_pos v) ->
+  opt_pos m b (if has m b then i32 v else g) 0 = (m, if has m b then v else 0).
+Proof.
+  intros H. unfold opt_pos. destruct (has m b) eqn:E; [|reflexivity].
+  destruct (H eq_refl) as [H1 H2]. rewrite i32_small by lia. destruct (Z.leb_spec v 0); [lia|reflexivity].
+Qed.
+
+(* stage 1: ares_init_by_options applied to what ares_save_options wrote *)
+Theorem save_init_by_options g c o m' :
+  chan_wf c -> save_options g c = Ok (o, m') ->
+  exists c0, init_by_options o m' = Ok c0 /\ covered_same c c0.
+Proof.
+  intros W H. unfold save_options in H.
+  destruct (_ || _ || _ || _); [discriminate|].
+  apply Ok_inj in H. injection H as Ho Hm. 
+  set (m := c_optmask c) in *.
+  assert (m' = m) as -> by (subst m'; apply i32_small; exact (wf_mask c W)).
+  eexists. split; [reflexivity|].
+  subst o. cbn [o_flags o_timeout o_tries o_ndots o_udp o_tcp o_sndbuf o_rcvbuf o_servers o_domains o_lookups
+               o_sscb o_sortlist o_ednspsz o_udpmaxq o_maxtimeout o_qcache o_retry_chance o_retry_delay].
+  (* every step leaves the mask alone (the servers step may clear its own bit) *)
+  assert (opt_timeout m (if has m B_TIMEOUTMS then i32 (c_timeout c) else g) = (m, if has m B_TIMEOUTMS then c_timeout c else 0)) as E1.
+  { unfold opt_timeout. destruct (has m B_TIMEOUTMS) eqn:E.
+    - destruct (wf_timeout c W E) as [A B0]. rewrite i32_small by lia. destruct (Z.leb_spec (c_timeout c) 0); [lia|].
+      unfold u32. rewrite Z.mod_small by lia. reflexivity.
+    - pose proof (wf_no_timeout_bit c W) as Hnt. fold m in Hnt. rewrite Hnt. reflexivity. }
+  rewrite E1. cbn [fst snd].
+  rewrite (opt_pos_saved m B_TRIES (c_tries c) g (wf_tries c W)). cbn [fst snd].
+  assert (opt_ndots m (if has m B_NDOTS then i32 (c_ndots c) else g) = (m, if has m B_NDOTS then c_ndots c else 1)) as E3.
+  { unfold opt_ndots. destruct (has m B_NDOTS) eqn:E; [|reflexivity].
+    pose proof (wf_ndots c W E). rewrite i32_small by lia. destruct (Z.ltb_spec (c_ndots c) 0); [lia|reflexivity]. }
+  rewrite E3. cbn [fst snd].
+  rewrite (opt_pos_saved m B_MAXTIMEOUTMS (c_maxtimeout c) g (wf_maxtimeout c W)). cbn [fst snd].
+  assert (opt_pos m B_SOCK_SNDBUF (if has m B_SOCK_SNDBUF && (0 <? c_sndbuf c) then c_sndbuf c else g) 0 = (m, if has m B_SOCK_SNDBUF then c_sndbuf c else 0)) as E5.
+  { unfold opt_pos. destruct (has m B_SOCK_SNDBUF) eqn:E; [|reflexivity]. destruct (wf_sndbuf c W E) as [A B0].
+    cbn [andb]. destruct (Z.ltb_spec 0 (c_sndbuf c)); [|lia]. destruct (Z.leb_spec (c_sndbuf c) 0); [lia|reflexivity]. }
+  rewrite E5. cbn [fst snd].
+  assert (opt_pos m B_SOCK_RCVBUF (if has m B_SOCK_RCVBUF && (0 <? c_rcvbuf c) then c_rcvbuf c else g) 0 = (m, if has m B_SOCK_RCVBUF then c_rcvbuf c else 0)) as E6.
+  { unfold opt_pos. destruct (has m B_SOCK_RCVBUF) eqn:E; [|reflexivity]. destruct (wf_rcvbuf c W E) as [A B0].
+    cbn [andb]. destruct (Z.ltb_spec 0 (c_rcvbuf c)); [|lia]. destruct (Z.leb_spec (c_rcvbuf c) 0); [lia|reflexivity]. }
+  rewrite E6. cbn [fst snd].
+  rewrite (opt_pos_saved m B_EDNSPSZ (c_ednspsz c) g (wf_ednspsz c W)). cbn [fst snd].
+  assert (opt_lookups m (if has m B_LOOKUPS then c_lookups c else None) = (m, if has m B_LOOKUPS then c_lookups c else None)) as E8.
+  { unfold opt_lookups. destruct (has m B_LOOKUPS) eqn:E; [|reflexivity].
+    pose proof (wf_lookups c W E). destruct (c_lookups c); [reflexivity|congruence]. }
+  rewrite E8. cbn [fst snd].
+  rewrite (opt_pos_saved m B_UDP_MAX_QUERIES (c_udpmaxq c) g (wf_udpmaxq c W)). cbn [fst snd].
+  assert (forall v, opt_qcache m v = (m, v)) as E10.
+  { intros v. unfold opt_qcache. pose proof (wf_qcache_bit c W) as Hq. fold m in Hq. rewrite Hq. reflexivity. }
+  rewrite E10. cbn [fst snd].
+  assert (forall b, b <> B_SERVERS -> forall f u t l, has (fst (opt_servers m f u t l)) b = has m b) as E11.
+  { intros b Hb f u t l. apply opt_servers_other. congruence. }
+  subst m.
+  constructor; cbn [c_optmask c_flags c_timeout c_tries c_ndots c_maxtimeout c_rotate c_udp c_tcp c_sndbuf c_rcvbuf
+                    c_ednspsz c_udpmaxq c_qcache c_domains c_lookups c_sortlist c_sscb c_retry_chance c_retry_delay].
+  - intros b Hb Hne. rewrite has_u32 by exact Hb. apply E11. exact Hne.
+  - intros Hb. rewrite Hb. apply u32_i32. exact (wf_flags c W).
+  - intros Hb. rewrite Hb. reflexivity.
+  - intros Hb. rewrite Hb. reflexivity.
+  - intros Hb. rewrite Hb. reflexivity.
+  - intros Hb. rewrite Hb. reflexivity.
+  - intros Hb. destruct (has (c_optmask c) B_NOROTATE) eqn:En.
+    + symmetry. apply (wf_norotate c W En).
+    + cbn [orb] in Hb. rewrite orb_false_r in Hb. rewrite Hb. symmetry. apply (wf_rotate c W Hb En).
+  - intros Hb. rewrite Hb. reflexivity.
+  - intros Hb. rewrite Hb. reflexivity.
+  - intros Hb. rewrite Hb. reflexivity.
+  - intros Hb. rewrite Hb. reflexivity.
+  - intros Hb. rewrite Hb. reflexivity.
+  - intros Hb. rewrite Hb. reflexivity.
+  - intros Hb. rewrite Hb. reflexivity.
+  - intros Hb. rewrite Hb. reflexivity.
+  - intros Hb. rewrite Hb. reflexivity.
+  - intros Hb. rewrite Hb. reflexivity.
+  - intros Hb. rewrite Hb. reflexivity.
+  - intros Hb. rewrite E11 by bits_neq. rewrite Hb. split; reflexivity.
+Qed.
+
+(* stage 2 and 3 of ares_init_options keep every covered field *)
+Section Effective.
+Variable nf : netfns.
+
+Theorem save_init_effective g e c o m' c1 :
+  chan_wf c -> (has (c_optmask c) B_DOMAINS = true -> c_domains c <> []) ->
+  save_options g c = Ok (o, m') -> init_options nf e o m' = Ok c1 ->
+  covered_same c c1.
+Proof.
+  intros W Hdom Hs Hi.
+  destruct (save_init_by_options g c o m' W Hs) as (c0 & E0 & CS).
+  unfold init_options in Hi. rewrite E0 in Hi. simpl in Hi.
+  destruct (init_by_sysconfig nf e c0) as [c0'| |] eqn:E1; simpl in Hi; try discriminate.
+  assert (guarded_same c0 c0') as G.
+  { unfold init_by_sysconfig in E1. destruct (read_sysconfig nf (c_ifs c0) e) as [s|st|k]; try discriminate.
+    - apply Ok_inj in E1. subst c0'. apply sysconfig_apply_user_wins.
+    - destruct (st =? NotModelled); [discriminate|]. apply Ok_inj in E1. subst c0'. apply guarded_same_refl. }
+  unfold init_by_defaults in Hi.
+  destruct (match c_servers c0' with [] => _ | _ => _ end) as [srv| |]; simpl in Hi; try discriminate.
+  apply Ok_inj in Hi. subst c1.
+  destruct (gs_rest _ _ G) as (R1 & R2 & R3 & R4 & R5 & R6 & R7 & R8 & R9 & R10 & R11 & _).
+  assert (forall b, 0 <= b < 32 -> b <> B_SERVERS -> has (c_optmask c) b = true -> has (c_optmask c0) b = true) as Hbit.
+  { intros b Hb Hne Hc. rewrite (cs_mask _ _ CS b Hb Hne). exact Hc. }
+  constructor; cbn [c_optmask c_flags c_timeout c_tries c_ndots c_maxtimeout c_rotate c_udp c_tcp c_sndbuf c_rcvbuf
+                    c_ednspsz c_udpmaxq c_qcache c_domains c_lookups c_sortlist c_sscb c_retry_chance c_retry_delay].
+  - intros b Hb Hne. rewrite (gs_mask _ _ G). apply (cs_mask _ _ CS b Hb Hne).
+  - intros Hb. rewrite (gs_mask _ _ G). rewrite (Hbit B_FLAGS) by (try exact Hb; bits_neq).
+    rewrite (gs_flags _ _ G) by (apply Hbit; [bits_neq|bits_neq|exact Hb]). apply (cs_flags _ _ CS Hb).
+  - intros Hb. rewrite (gs_timeout _ _ G) by (apply Hbit; [bits_neq|bits_neq|exact Hb]). rewrite (cs_timeout _ _ CS Hb).
+    destruct (wf_timeout c W Hb). destruct (Z.eqb_spec (c_timeout c) 0); [lia|reflexivity].
+  - intros Hb. rewrite (gs_tries _ _ G) by (apply Hbit; [bits_neq|bits_neq|exact Hb]). rewrite (cs_tries _ _ CS Hb).
+    destruct (wf_tries c W Hb). destruct (Z.eqb_spec (c_tries c) 0); [lia|reflexivity].
+  - intros Hb. rewrite (gs_ndots _ _ G) by (apply Hbit; [bits_neq|bits_neq|exact Hb]). apply (cs_ndots _ _ CS Hb).
+  - intros Hb. rewrite R1. apply (cs_maxtimeout _ _ CS Hb).
+  - intros Hb. rewrite (gs_rotate _ _ G); [apply (cs_rotate _ _ CS Hb)|].
+    rewrite (cs_mask _ _ CS B_ROTATE) by bits_neq. rewrite (cs_mask _ _ CS B_NOROTATE) by bits_neq. exact Hb.
+  - intros Hb. rewrite R2. apply (cs_udp _ _ CS Hb).
+  - intros Hb. rewrite R3. apply (cs_tcp _ _ CS Hb).
+  - intros Hb. rewrite R4. apply (cs_sndbuf _ _ CS Hb).
+  - intros Hb. rewrite R5. apply (cs_rcvbuf _ _ CS Hb).
+  - intros Hb. rewrite R6. rewrite (cs_ednspsz _ _ CS Hb).
+    destruct (wf_ednspsz c W Hb). destruct (Z.eqb_spec (c_ednspsz c) 0); [lia|reflexivity].
+  - intros Hb. rewrite R8. apply (cs_udpmaxq _ _ CS Hb).
+  - intros Hb. rewrite R7. apply (cs_qcache _ _ CS Hb).
+  - intros Hb. rewrite (gs_domains _ _ G) by (apply Hbit; [bits_neq|bits_neq|exact Hb]). rewrite (cs_domains _ _ CS Hb).
+    destruct (c_domains c) eqn:Ed; [exfalso; apply (Hdom Hb); reflexivity|reflexivity].
+  - intros Hb. rewrite (gs_lookups _ _ G) by (apply Hbit; [bits_neq|bits_neq|exact Hb]). rewrite (cs_lookups _ _ CS Hb).
+    pose proof (wf_lookups c W Hb). destruct (c_lookups c); [reflexivity|congruence].
+  - intros Hb. rewrite (gs_sortlist _ _ G) by (apply Hbit; [bits_neq|bits_neq|exact Hb]). apply (cs_sortlist _ _ CS Hb).
+  - intros Hb. rewrite R11. apply (cs_sscb _ _ CS Hb).
+  - intros Hb. rewrite (gs_mask _ _ G). rewrite (Hbit B_SERVER_FAILOVER) by (try exact Hb; bits_neq).
+    rewrite R9, R10. apply (cs_failover _ _ CS Hb).
+Qed.
+
+End Effective.
+
+(* ARES_OPT_TIMEOUT in seconds is multiplied in 32 bits; above 2147483 s the channel's timeout
+   exceeds INT_MAX ms and ares_save_options cannot represent it: init (save c) drops it *)
+Lemma save_init_timeout_refuted :
+  exists o m c g o' m' c0,
+    init_by_options o m = Ok c /\ c_timeout c = 3000000000 /\ has (c_optmask c) B_TIMEOUTMS = true /\
+    save_options g (mkChan (c_flags c) (c_timeout c) 3 1 0 false 0 0 0 0 [] [] (Some s_fb) 1232 3600 0 (c_optmask c) 10 5000 0
+                           [mkServer loopback 53 53 [] 0] [] 0 [] None) = Ok (o', m') /\
+    init_by_options o' m' = Ok c0 /\ has (c_optmask c0) B_TIMEOUTMS = false /\ c_timeout c0 = 0.
+Proof.
+  exists (mkOpts 0 3000000 0 0 0 0 0 0 [] [] None 0 [] 0 0 0 0 0 0), 2.
+  eexists. exists 0. eexists. eexists. eexists.
+  vm_compute. repeat split; reflexivity.
+Qed.
+
+(* the hypotheses of save_init_effective are satisfiable by a channel with most option bits set *)
+Definition ex_chan : chan :=
+  mkChan 272 1234 5 2 9000 false 5353 53 4096 8192 [[97%N]; [98%N]] [mkApat (A4 [10%N; 0%N; 0%N; 0%N]) 8] (Some s_fb)
+         1232 3600 100 (2 ^ 0 + 2 ^ 2 + 2 ^ 3 + 2 ^ 4 + 2 ^ 5 + 2 ^ 7 + 2 ^ 8 + 2 ^ 10 + 2 ^ 11 + 2 ^ 12 + 2 ^ 13 + 2 ^ 15
+                        + 2 ^ 16 + 2 ^ 19 + 2 ^ 20 + 2 ^ 21 + 2 ^ 23) 7 3000 0
+         [mkServer loopback 5353 53 [] 0] [] 0 [] None.
+
+Example chan_wf_example :
+  chan_wf ex_chan /\ (has (c_optmask ex_chan) B_DOMAINS = true -> c_domains ex_chan <> []) /\
+  exists o m, save_options 0 ex_chan = Ok (o, m).
+Proof.
+  split; [|split].
+  - constructor; try (intros _); try (vm_compute; repeat split; congruence).
+  - intros _. discriminate.
+  - eexists. eexists. vm_compute. reflexivity.
+Qed.
